@@ -27,6 +27,7 @@ int main(int argc, char** argv)
             ++tid;
             bool isRelay = !menus.empty() && !menus[0].empty() && menus[0][0] == 3;
             x.worker([lr, menus, tid, holders, relayLeft, isRelay] {
+                long nread = 0;
                 for (auto& menu : menus) {
                     int op = vrt::pick_and_call(menu, names);
                     long r = 0;
@@ -41,7 +42,13 @@ int main(int argc, char** argv)
                             r = -1;
                         }
                     } else {
-                        auto h = lr->lock_shared();
+                        // the four acquisition forms in turn (all wait-free: one operation of the model)
+                        const std::chrono::milliseconds du(10);
+                        int form = (tid + (int)(++nread)) % 4;
+                        auto h = form == 0   ? lr->lock_shared()
+                                 : form == 1 ? lr->try_lock_shared()
+                                 : form == 2 ? lr->try_lock_shared_for(du)
+                                             : lr->try_lock_shared_until(std::chrono::steady_clock::now() + du);
                         vrt::log_ev("hget", "cell", h->id);
                         int ticket = ++*holders;
                         if (op == 3) {
